@@ -70,7 +70,7 @@ Proof. intros. cbn [run]. now rewrite H0, (sel_conv_congr c a a' H). Qed.
 (* ---- one node over literal children --------------------------------------------------- *)
 
 Definition node_defect (o : binop) (ta : ty) : bool :=
-  match o with Mul => ty_eqb TLong ta | Neq => ty_eqb TBool ta | _ => false end.
+  match o with Mul => ty_eqb TLong ta | ONe => ty_eqb TBool ta | _ => false end.
 
 Definition node_lazy (o : binop) (ta tb : ty) : bool :=
   match o with
@@ -342,10 +342,10 @@ Proof.
     specialize (IHa t Hty Hem Hnd).
     cbn [fold]. destruct (fold a) as [a'| |]; cbn [sound_for] in IHa |- *.
     + destruct IHa as (Ta' & Ea' & Ra' & La').
-      unfold node_sup. destruct a' as [la| | | | |]; cbn [sound_for];
-        try (repeat split; try assumption;
-             intro S; cbn [strict] in S; destruct (La' S) as [l Hl]; discriminate Hl).
-      repeat split; try assumption. intros _. eexists; reflexivity.
+      unfold node_sup. destruct a' as [la| | | | |]; cbn [sound_for].
+      1: { split4; [assumption | assumption | assumption |]. intros _. eexists; reflexivity. }
+      all: (split4; [exact Ta' | exact Ea' | exact Ra' |
+            intro S; cbn [strict] in S; destruct (La' S) as [l Hl]; discriminate Hl]).
     + intro S. cbn [strict] in S. cbn [run]. exact (IHa S).
     + intro S. cbn [strict] in S. cbn [run]. exact (IHa S).
   - (* ?: *)
@@ -385,4 +385,175 @@ Proof.
       try (intro S; cbn [strict] in S; discriminate S).
     + cbn [run]. rewrite <- Rc'. cbn. exact Ra'.
     + cbn [run]. rewrite <- Rc'. cbn. exact Rb'.
+Qed.
+
+(* ---- the theorems ---------------------------------------------------------------------- *)
+
+(* the tree can be emitted and avoids the two value-level defects of the pinned tree *)
+Definition clean (e : expr) : bool := emit_ok e && no_known_defect e.
+
+Lemma clean_inv : forall e, clean e = true -> emit_ok e = true /\ no_known_defect e = true.
+Proof. intros e H. unfold clean in H. now apply andb_true_iff in H. Qed.
+
+Lemma rt_eval_run : forall e, emit_ok e = true -> rt_eval e = run e.
+Proof. intros e H. unfold rt_eval. now rewrite H. Qed.
+
+(* whatever the reducer leaves behind computes, at run time, exactly what the original
+   expression computes — same value bit for bit, same fault, same type *)
+Theorem fold_agrees_with_runtime_partial : forall e t e',
+  ty_of e = Some t -> clean e = true -> fold e = FOk e' ->
+  ty_of e' = Some t /\ rt_eval e' = rt_eval e.
+Proof.
+  intros e t e' Hty Hc Hf. destruct (clean_inv e Hc) as [He Hn].
+  pose proof (fold_sound e t Hty He Hn) as S. rewrite Hf in S. cbn [sound_for] in S.
+  destruct S as (T & E & R & _). split; [assumption|].
+  now rewrite (rt_eval_run e' E), (rt_eval_run e He).
+Qed.
+
+(* in particular a folded literal IS the run-time value *)
+Theorem fold_literal_is_runtime_value : forall e t l,
+  ty_of e = Some t -> clean e = true -> fold e = FOk (ELit l) ->
+  rt_eval e = Val (lit_val l) /\ lit_ty l = t.
+Proof.
+  intros e t l Hty Hc Hf.
+  destruct (fold_agrees_with_runtime_partial e t (ELit l) Hty Hc Hf) as [T R].
+  split; [now rewrite <- R | now inversion T].
+Qed.
+
+(* every tree without lazily evaluated nodes folds completely: to a literal of its type, to
+   the division-by-zero rejection, or (pinned-tree defect) crashes the compiler *)
+Theorem fold_total : forall e t,
+  ty_of e = Some t -> clean e = true -> strict e = true ->
+  fold e = FCrash \/ fold e = FReject \/ exists l, fold e = FOk (ELit l) /\ lit_ty l = t.
+Proof.
+  intros e t Hty Hc Hs. destruct (clean_inv e Hc) as [He Hn].
+  pose proof (fold_sound e t Hty He Hn) as S.
+  destruct (fold e) as [e'| |]; [|right; left; reflexivity | left; reflexivity].
+  right. right. cbn [sound_for] in S. destruct S as (T & _ & _ & L).
+  destruct (L Hs) as [l ->]. exists l. split; [reflexivity | now inversion T].
+Qed.
+
+Theorem fold_div0_is_runtime_fault_partial : forall e t,
+  ty_of e = Some t -> clean e = true -> strict e = true ->
+  fold e = FReject -> rt_eval e = Fault DivisionByZero.
+Proof.
+  intros e t Hty Hc Hs Hf. destruct (clean_inv e Hc) as [He Hn].
+  pose proof (fold_sound e t Hty He Hn) as S. rewrite Hf in S. cbn [sound_for] in S.
+  rewrite (rt_eval_run e He). exact (S Hs).
+Qed.
+
+(* when the compiler itself traps on a constant, the variable version does not produce a
+   value either: it traps in the VM, or faults earlier on a division by zero *)
+Theorem fold_crash_is_runtime_failure : forall e t,
+  ty_of e = Some t -> clean e = true -> strict e = true ->
+  fold e = FCrash -> rt_eval e = Crash SigFpe \/ rt_eval e = Fault DivisionByZero.
+Proof.
+  intros e t Hty Hc Hs Hf. destruct (clean_inv e Hc) as [He Hn].
+  pose proof (fold_sound e t Hty He Hn) as S. rewrite Hf in S. cbn [sound_for] in S.
+  rewrite (rt_eval_run e He). exact (S Hs).
+Qed.
+
+(* ---- refutations on the faithful model of the pinned tree ------------------------------ *)
+
+Definition ex_long_mul : expr := EBin Mul (ELit (LLong 5000000000)) (ELit (LLong 2)).
+Definition ex_bool_neq : expr := EBin ONe (ELit (LBool true)) (ELit (LBool false)).
+Definition ex_enum_lt : expr := EBin OLt (ELit (LEnum 7)) (ELit (LInt 9)).
+Definition ex_and_div0 : expr :=
+  EBin And (ELit (LBool false))
+           (EBin OEq (EBin Div (ELit (LInt 1)) (ELit (LInt 0))) (ELit (LInt 0))).
+Definition ex_cond_div0 : expr :=
+  ECond (ELit (LBool true)) (ELit (LInt 1)) (EBin Div (ELit (LInt 1)) (ELit (LInt 0))).
+Definition ex_int_min_div : expr := EBin Div (ELit (LInt (-2147483648))) (ELit (LInt (-1))).
+Definition ex_int_min_mod : expr := EBin Mod (ELit (LInt (-2147483648))) (ELit (LInt (-1))).
+
+(* the full statement "fold e = literal v  ->  the VM computes v" is false *)
+Theorem fold_agrees_with_runtime_refuted :
+  exists e t l, ty_of e = Some t /\ fold e = FOk (ELit l) /\ rt_eval e <> Val (lit_val l).
+Proof.
+  exists ex_long_mul, TLong, (LLong 1410065408).
+  split; [reflexivity|]. split; [vm_compute; reflexivity|].
+  vm_compute. intro H. discriminate H.
+Qed.
+
+Theorem long_mul_fold_is_wrong :
+  fold ex_long_mul = FOk (ELit (LLong 1410065408)) /\ rt_eval ex_long_mul = Val (VLong 10000000000).
+Proof. split; vm_compute; reflexivity. Qed.
+
+Theorem bool_neq_runtime_is_wrong :
+  fold ex_bool_neq = FOk (ELit (LBool true)) /\ rt_eval ex_bool_neq = Val (VInt 0).
+Proof. split; vm_compute; reflexivity. Qed.
+
+Theorem enum_compare_is_not_emitted :
+  ty_of ex_enum_lt = Some TBool /\ fold ex_enum_lt = FOk (ELit (LBool true)) /\
+  rt_eval ex_enum_lt = Crash EmitAssert.
+Proof. repeat split; vm_compute; reflexivity. Qed.
+
+(* the statement "rejected as constant division by zero -> the VM faults" is false *)
+Theorem fold_div0_is_runtime_fault_refuted :
+  exists e t v, ty_of e = Some t /\ clean e = true /\ fold e = FReject /\ rt_eval e = Val v.
+Proof.
+  exists ex_and_div0, TBool, (VInt 0). repeat split; vm_compute; reflexivity.
+Qed.
+
+Theorem cond_div0_is_rejected_but_runs :
+  ty_of ex_cond_div0 = Some TInt /\ fold ex_cond_div0 = FReject /\ rt_eval ex_cond_div0 = Val (VInt 1).
+Proof. repeat split; vm_compute; reflexivity. Qed.
+
+(* "the reducer is total" is false: the compiler dies on a constant *)
+Theorem fold_never_crashes_refuted :
+  exists e t, ty_of e = Some t /\ clean e = true /\ strict e = true /\ fold e = FCrash.
+Proof. exists ex_int_min_div, TInt. repeat split; vm_compute; reflexivity. Qed.
+
+Theorem int_min_div_traps_both_sides :
+  fold ex_int_min_div = FCrash /\ rt_eval ex_int_min_div = Crash SigFpe /\
+  fold ex_int_min_mod = FCrash /\ rt_eval ex_int_min_mod = Crash SigFpe.
+Proof. repeat split; vm_compute; reflexivity. Qed.
+
+(* ---- elaboration produces trees the theorems apply to ------------------------------------ *)
+
+Lemma check_bin_after_conv : forall o ta tb t cl cr,
+  check_bin o ta tb = Some (t, cl, cr) ->
+  check_bin o (apply_conv ta cl) (apply_conv tb cr) = Some (t, None, None) /\
+  (forall c, cl = Some c -> conv_src c = ta) /\ (forall c, cr = Some c -> conv_src c = tb).
+Proof.
+  intros o ta tb t cl cr H.
+  destruct o, ta, tb; cbn in H; try discriminate; inversion H; subst; cbn;
+    (split; [reflexivity|]); split; intros c Hc; try discriminate; inversion Hc; reflexivity.
+Qed.
+
+Lemma ty_of_wrap_conv : forall c e t, ty_of e = Some t ->
+  (forall c', c = Some c' -> conv_src c' = t) ->
+  ty_of (wrap_conv c e) = Some (apply_conv t c).
+Proof.
+  intros [c|] e t H Hs; cbn; [|assumption].
+  rewrite H. unfold check_conv. rewrite <- (Hs c eq_refl).
+  assert (ty_eqb (conv_src c) (conv_src c) = true) by (destruct c; reflexivity).
+  now rewrite H0.
+Qed.
+
+Theorem elab_well_typed : forall s e t, elab s = Some (e, t) -> ty_of e = Some t.
+Proof.
+  induction s as [l | o a IHa | o a IHa b IHb | a IHa | c IHc a IHa b IHb]; intros e t H;
+    cbn [elab] in H.
+  - inversion H. reflexivity.
+  - destruct (elab a) as [[ea ta]|]; [|discriminate].
+    destruct (check_un o ta) as [t'|] eqn:E; [|discriminate]. inversion H; subst.
+    cbn [ty_of]. now rewrite (IHa ea ta eq_refl).
+  - destruct (elab a) as [[ea ta]|]; [|discriminate].
+    destruct (elab b) as [[eb tb]|]; [|discriminate].
+    destruct (check_bin o ta tb) as [[[t' cl] cr]|] eqn:E; [|discriminate]. inversion H; subst.
+    destruct (check_bin_after_conv o ta tb t cl cr E) as (C & Sl & Sr).
+    cbn [ty_of].
+    rewrite (ty_of_wrap_conv cl ea ta (IHa ea ta eq_refl) Sl).
+    rewrite (ty_of_wrap_conv cr eb tb (IHb eb tb eq_refl) Sr).
+    now rewrite C.
+  - destruct (elab a) as [[ea ta]|]; [|discriminate]. inversion H; subst.
+    cbn [ty_of]. exact (IHa ea t eq_refl).
+  - destruct (elab c) as [[ec tc]|]; [|discriminate].
+    destruct tc; try discriminate.
+    destruct (elab a) as [[ea ta]|]; [|discriminate].
+    destruct (elab b) as [[eb tb]|]; [|discriminate].
+    destruct (ty_eqb ta tb) eqn:E; [|discriminate]. inversion H; subst.
+    cbn [ty_of]. rewrite (IHc ec TBool eq_refl), (IHa ea t eq_refl), (IHb eb tb eq_refl).
+    now rewrite E.
 Qed.
